@@ -569,6 +569,34 @@ func (w *world) sync(wk *workerSim, kind string, prefer bool, completion string)
 	}
 	desc := kind
 	wrong := &remoteexecution.Digest{Hash: strings.Repeat("f", 64), SizeBytes: 1}
+	if kind == "wrongExecuting" || kind == "wrongCompleted" {
+		// Mostly a digest that differs from the assigned task's in one
+		// component only: same hash with another size, or same size with
+		// another hash.
+		var base *remoteexecution.Digest
+		if w.m.prev != nil {
+			for _, x := range w.m.prev.Workers {
+				if x.Key == workerKeyOf(wk) && x.QueueName == w.m.queueNameOf(wk) && x.CurrentTask != nil {
+					base = x.CurrentTask.DesiredState.ActionDigest
+				}
+			}
+		}
+		if base == nil && wk.believes != nil {
+			base = wk.believes.ActionDigest
+		}
+		if base != nil {
+			switch rapid.SampledFrom([]string{"unrelated", "same_hash_other_size", "same_hash_other_size", "same_size_other_hash"}).Draw(w.rt, "wrongDigest") {
+			case "same_hash_other_size":
+				wrong = &remoteexecution.Digest{Hash: base.GetHash(), SizeBytes: base.GetSizeBytes() + 1}
+				desc += "(same hash, other size)"
+				w.m.label("wrong_digest_same_hash_other_size")
+			case "same_size_other_hash":
+				wrong = &remoteexecution.Digest{Hash: strings.Repeat("e", 64), SizeBytes: base.GetSizeBytes()}
+				desc += "(same size, other hash)"
+				w.m.label("wrong_digest_same_size_other_hash")
+			}
+		}
+	}
 	switch kind {
 	case "auto":
 		// Protocol-following: report what the worker believes.
